@@ -1340,22 +1340,33 @@ def default_verbatim(check: Check, repo: Repo, rule: str = "DEFAULT-VERBATIM") -
 def assume_valid_fresh(check: Check, repo: Repo, rule: str = "ASSUME-VALID-FRESH") -> None:
     check.rule(
         rule,
-        "extend_schema decides afresh whether the produced schema counts as validated: every `assume_valid=<expr>` keyword "
-        "in utilities/extend_schema.py is computed from the function's own assume_valid parameter alone - never from the "
-        "kwargs of the schema being extended (config['assume_valid'], schema.assume_valid). An extension can add anything, "
+        "extend_schema and build_ast_schema decide afresh whether the produced schema counts as validated: every "
+        "`assume_valid=<expr>` keyword (and the positional hand-over to extend_schema_args) in these two modules is computed "
+        "- locals expanded - from the function's own assume_valid parameter alone: never from the kwargs of the schema being "
+        "extended (config['assume_valid'], schema.assume_valid) and never from assume_valid_sdl, which only vouches for the "
+        "*document* (skip the SDL rules), not for the schema built from it. An extension can add anything, "
         "so the validity a caller vouched for on the base schema says nothing about the result; inheriting the flag lets "
         "an invalid extended schema skip validate_schema and fail at execution time",
     )
-    mod = repo.mod("utilities.extend_schema")
-    kws = [kw for c in ast.walk(mod.tree) if isinstance(c, ast.Call) for kw in c.keywords if kw.arg == "assume_valid"]
-    # dict literals {"assume_valid": ...} count as well
-    pairs = [(k, v) for d in ast.walk(mod.tree) if isinstance(d, ast.Dict) for k, v in zip(d.keys, d.values)
-             if isinstance(k, ast.Constant) and k.value == "assume_valid"]
-    exprs = [kw.value for kw in kws] + [v for _k, v in pairs]
-    if not exprs:
-        raise AnalysisError("extend_schema: no assume_valid keyword found")
-    for e in exprs:
+    from sa.loader import enclosing_function
+    from sa.tables import inline_locals
+
+    exprs: list[ast.AST] = []
+    for mn in ("utilities.extend_schema", "utilities.build_ast_schema"):
+        mod = repo.mod(mn)
+        kws = [kw for c in ast.walk(mod.tree) if isinstance(c, ast.Call) for kw in c.keywords if kw.arg == "assume_valid"]
+        # dict literals {"assume_valid": ...} count as well
+        pairs = [(k, v) for d in ast.walk(mod.tree) if isinstance(d, ast.Dict) for k, v in zip(d.keys, d.values)
+                 if isinstance(k, ast.Constant) and k.value == "assume_valid"]
+        exprs += [kw.value for kw in kws] + [v for _k, v in pairs]
+        # ... and the positional hand-over to ExtendSchemaImpl.extend_schema_args(kwargs, document, assume_valid)
+        exprs += [c.args[2] for c in ast.walk(mod.tree) if isinstance(c, ast.Call) and call_name(c).split(".")[-1] == "extend_schema_args" and len(c.args) >= 3]
+    if len(exprs) < 3:
+        raise AnalysisError("extend_schema / build_ast_schema: assume_valid hand-overs not found")
+    for e0 in exprs:
+        f0 = enclosing_function(e0)
+        e = inline_locals(e0, f0, keep={"assume_valid"}) if f0 is not None and not isinstance(f0, ast.Lambda) else e0
         names = {x.id for x in ast.walk(e) if isinstance(x, ast.Name)}
         foreign = sorted(names - {"assume_valid"}) + [unparse(x)[:40] for x in ast.walk(e) if isinstance(x, (ast.Subscript, ast.Attribute))]
-        check.ob(rule, e, f"{qualname_of(e)}: assume_valid={unparse(e)[:50]}", not foreign,
+        check.ob(rule, e0, f"{qualname_of(e0)}: assume_valid={unparse(e0)[:50]}", not foreign,
                  "the caller's own flag" if not foreign else f"also depends on {foreign}: the flag of the extended schema is inherited")
